@@ -32,6 +32,7 @@ type GenFile struct {
 	Records  []RecordSpec
 	Methods  map[string]*ast.FuncDecl // "GoType.Method"
 	Funcs    map[string]*ast.FuncDecl // package-level functions
+	lines    []string
 }
 
 // GoTypeName is the Go identifier a schema name gets under the options (the
@@ -294,7 +295,10 @@ func (gf *GenFile) Line(pos token.Pos) string {
 		return "?"
 	}
 	p := gf.Fset.Position(pos)
-	lines := strings.Split(gf.Text, "\n")
+	if gf.lines == nil {
+		gf.lines = strings.Split(gf.Text, "\n")
+	}
+	lines := gf.lines
 	txt := ""
 	if p.Line-1 < len(lines) && p.Line >= 1 {
 		txt = strings.TrimSpace(lines[p.Line-1])
